@@ -20,6 +20,7 @@ type simTimer struct {
 	ch       chan time.Time
 	fn       func()
 	key      unsafe.Pointer
+	hb       unsafe.Pointer // AfterFunc: released by the arming task, acquired by the function's goroutine
 }
 
 var (
@@ -34,7 +35,7 @@ const longTime = 1000 * time.Hour
 const maxTimeSkips = 20000
 
 //go:norace
-func addTimer(d time.Duration, period time.Duration, ch chan time.Time, fn func(), key unsafe.Pointer) {
+func addTimer(d time.Duration, period time.Duration, ch chan time.Time, fn func(), key unsafe.Pointer, hb unsafe.Pointer) {
 	now, _ := simNow()
 	if nTimers == tableCap {
 		simFault = "timer table full"
@@ -43,7 +44,7 @@ func addTimer(d time.Duration, period time.Duration, ch chan time.Time, fn func(
 	if d < 0 {
 		d = 0
 	}
-	timers[nTimers] = simTimer{deadline: now + int64(d), period: int64(period), ch: ch, fn: fn, key: key}
+	timers[nTimers] = simTimer{deadline: now + int64(d), period: int64(period), ch: ch, fn: fn, key: key, hb: hb}
 	nTimers++
 	recomputeNextTimer()
 	progress++
@@ -126,10 +127,15 @@ func fireDue() {
 			}
 		case t.fn != nil:
 			f := t.fn
+			hb := t.hb
 			tk := TaskNew()
 			go func() {
 				TaskEnter(tk)
 				defer TaskExit(tk)
+				if hb != nil {
+					// the real runtime orders the function after the arming of its timer
+					raceAcquire(hb)
+				}
 				f()
 			}()
 		}
@@ -162,7 +168,7 @@ func Sleep(d time.Duration) {
 		return
 	}
 	ch := make(chan time.Time, 1)
-	addTimer(d, 0, ch, nil, nil)
+	addTimer(d, 0, ch, nil, nil, nil)
 	Recv[time.Time](ch)
 }
 
@@ -171,7 +177,7 @@ func After(d time.Duration) <-chan time.Time {
 		return time.After(d)
 	}
 	ch := make(chan time.Time, 1)
-	addTimer(d, 0, ch, nil, nil)
+	addTimer(d, 0, ch, nil, nil, nil)
 	return ch
 }
 
@@ -180,7 +186,7 @@ func Tick(d time.Duration) <-chan time.Time {
 		return time.Tick(d)
 	}
 	ch := make(chan time.Time, 1)
-	addTimer(d, d, ch, nil, nil)
+	addTimer(d, d, ch, nil, nil, nil)
 	return ch
 }
 
@@ -192,7 +198,7 @@ func NewTimer(d time.Duration) *time.Timer {
 	t.Stop()
 	ch := make(chan time.Time, 1)
 	t.C = ch
-	addTimer(d, 0, ch, nil, unsafe.Pointer(t))
+	addTimer(d, 0, ch, nil, unsafe.Pointer(t), nil)
 	return t
 }
 
@@ -207,7 +213,7 @@ func NewTicker(d time.Duration) *time.Ticker {
 	t.Stop()
 	ch := make(chan time.Time, 1)
 	t.C = ch
-	addTimer(d, d, ch, nil, unsafe.Pointer(t))
+	addTimer(d, d, ch, nil, unsafe.Pointer(t), nil)
 	return t
 }
 
@@ -217,8 +223,15 @@ func AfterFunc(d time.Duration, f func()) *time.Timer {
 	}
 	t := time.AfterFunc(longTime, func() {})
 	t.Stop()
-	addTimer(d, 0, nil, f, unsafe.Pointer(t))
+	addTimer(d, 0, nil, f, unsafe.Pointer(t), armEdge())
 	return t
+}
+
+// armEdge: a fresh synchronisation token released by the arming goroutine.
+func armEdge() unsafe.Pointer {
+	p := unsafe.Pointer(new(int64))
+	raceRelease(p)
+	return p
 }
 
 // simulated timers are known by the address of the value handed to the library
@@ -256,7 +269,11 @@ func TimerReset(t *time.Timer, d time.Duration) bool {
 		}
 		fn = afterFuncs(unsafe.Pointer(t))
 	}
-	addTimer(d, 0, ch, fn, unsafe.Pointer(t))
+	var hb unsafe.Pointer
+	if fn != nil {
+		hb = armEdge()
+	}
+	addTimer(d, 0, ch, fn, unsafe.Pointer(t), hb)
 	if fn != nil {
 		rememberAfterFunc(unsafe.Pointer(t), fn)
 	}
@@ -278,7 +295,7 @@ func TickerReset(t *time.Ticker, d time.Duration) {
 	}
 	stopTimerKey(unsafe.Pointer(t))
 	if c, ok := chanOf(t.C); ok {
-		addTimer(d, d, c, nil, unsafe.Pointer(t))
+		addTimer(d, d, c, nil, unsafe.Pointer(t), nil)
 	}
 }
 
